@@ -673,8 +673,9 @@ func runCase(c Case) (res pbt.Result) {
 }
 
 // checkLateUpdates: for each late-on-arrival row L and each window W containing it that had fired before L
-// arrived: must-update if wm < W.end+AL and ts(L) >= wm-AL; must-not if W was surely closed (two later
-// trigger rounds at watermarks >= W.end+AL were observed before L); otherwise either.
+// arrived: must-update if wm < W.end+AL and ts(L) >= wm-AL; must-not if wm >= W.end+AL (the watermark moves
+// inside the ingesting call, so the window is closed for L on arrival whatever the trigger goroutine has done);
+// otherwise (window open, row older than wm-AL) either.
 func checkLateUpdates(c Case, arr []et.Arrival, rows []drow, res *pbt.Result) {
 	evs := c.Events
 	for i, L := range evs {
@@ -718,37 +719,11 @@ func checkLateUpdates(c Case, arr []et.Arrival, rows []drow, res *pbt.Result) {
 				}
 				continue
 			}
-			if !open && c.Kind == "tumbling" {
-				// surely closed: before L arrived, two trigger rounds at watermarks >= we+AL each fired a window
-				// holding accepted rows (so the barrier observed their deliveries); the trigger goroutine is
-				// sequential, hence the first round - which closes W after delivering - had finished.
-				rounds := 0
-				prevWM := int64(-1 << 62)
-				for j := 0; j < i; j++ {
-					if evs[j].Garbage != "" || arr[j].WM <= prevWM {
-						continue
-					}
-					wmj := arr[j].WM
-					fired := false
-					for k := 0; k <= j; k++ {
-						e := evs[k]
-						if e.Garbage != "" || arr[k].Late {
-							continue
-						}
-						end := e.TS/c.SizeMs*c.SizeMs + c.SizeMs
-						if end > prevWM && end <= wmj {
-							fired = true
-							break
-						}
-					}
-					if fired && wmj >= we+c.ALMs {
-						rounds++
-					}
-					prevWM = wmj
-				}
-				if rounds >= 2 && withL > 0 {
-					res.Add(pbt.D("late-update-after-allowance", "%s: late id %d ts=%d arrived at watermark %d, after window [%d,%d) + allowance %d had expired (two later trigger rounds observed), yet a result contains it", c.Kind, L.ID, L.TS, wm, ws, we, c.ALMs))
-				}
+			if !open && withL > 0 {
+				// The watermark moves inside the ingesting call, so on arrival of L it already stood at wm >= we + AL:
+				// the window is closed for L whether or not the trigger goroutine has removed its bookkeeping yet.
+				res.Add(pbt.D("late-update-after-allowance", "%s: late id %d ts=%d arrived at watermark %d, at or after window [%d,%d) + allowance %d, yet a result contains it", c.Kind, L.ID, L.TS, wm, ws, we, c.ALMs))
+				continue
 			}
 		}
 	}
@@ -785,8 +760,8 @@ func features(c Case) []string {
 
 var spec = pbt.Spec[Case]{
 	ID:          "C02",
-	Rule:        "generated: event-time tumbling, sliding and session windows with MAXOUTOFORDERNESS and ALLOWEDLATENESS in {0, size/2, 2*size}, 0-3 groups, jittered timelines with rows of graded lateness, bursts without pauses, far-future (year 2100) rows and rows without a usable timestamp (missing, NULL, non-numeric string); with ALLOWEDLATENESS > 0 rows are fed in barrier mode (all due firings delivered before each late row). oracle (invariants over the delivery history, each delivery stamped with the number of Emit calls begun): no early firing; every not-late-on-arrival row reported; garbage rows in no result and results equal with and without them (metamorphic twin run); a window is re-delivered only with an allowance, under the same window_id, with contents = previous + late rows; late row into a fired window still inside the allowance => re-delivery containing it; after the allowance surely expired => not contained. non-trivial = a late row, a garbage row, or a burst >= 10 rows with >= 2 windows; distinct by case hash",
-	Assumptions: []string{"lateness of an update is judged by window end + allowance (Flink semantics); in the sliver where the window is still open but the row is older than watermark - allowance either outcome is accepted", "a window counts as surely closed only after two later trigger rounds whose deliveries the barrier observed - otherwise either outcome is accepted", "rows late on arrival may be counted or not"},
+	Rule:        "generated: event-time tumbling, sliding and session windows with MAXOUTOFORDERNESS and ALLOWEDLATENESS in {0, size/2, 2*size}, 0-3 groups, jittered timelines with rows of graded lateness, bursts without pauses, far-future (year 2100) rows and rows without a usable timestamp (missing, NULL, non-numeric string); with ALLOWEDLATENESS > 0 rows are fed in barrier mode (all due firings delivered before each late row). oracle (invariants over the delivery history, each delivery stamped with the number of Emit calls begun): no early firing; every not-late-on-arrival row reported; garbage rows in no result and results equal with and without them (metamorphic twin run); a window is re-delivered only with an allowance, under the same window_id, with contents = previous + late rows; late row into a fired window still inside the allowance => re-delivery containing it; arriving when the watermark has reached window end + allowance => not contained. non-trivial = a late row, a garbage row, or a burst >= 10 rows with >= 2 windows; distinct by case hash",
+	Assumptions: []string{"lateness of an update is judged by window end + allowance (Flink semantics); in the sliver where the window is still open but the row is older than watermark - allowance either outcome is accepted", "rows late on arrival may be counted or not"},
 	Gen:         genCase,
 	Run:         runCase,
 	Features:    features,
